@@ -44,6 +44,8 @@ class NPath:
                 if not truth:
                     self.feasible = False
                 continue
+            if x[0] == "cmp" and ("cmp", x[1], nf.NEG[x[2]]) in self.guards:
+                self.feasible = False       # p and not p on one path
             if x not in self.guards:
                 self.guards.append(x)
         self.calls = []
